@@ -427,6 +427,8 @@ def C18():
             ("c18_data_array", "Array of U16: written elements read back until input is exhausted", True, 8)):
         jobs.append(Kani(h, claim, tiers=("quick", "thorough") if q else ("thorough",), bounds={"unwind": unw, "depth": 1}, symbolic=["all field values"],
                          functions=["core::per::*" if "_per_" in h else "model::data::* (Message impls)"], timeout=900, mem_gb=8))
+    jobs.append(MirJob("c18_mir_component_options", "Component::read/write/length: every Size and SkipField option a field announces is recorded unconditionally; a sized field is read as lookup -> allocate exactly -> read_exact -> parse from a cursor; skipped names are neither read, written nor counted (structure of the generic record container, which CBMC cannot execute with dependent fields)",
+                       mirjobs.component_options))
     return Prop("C18", [("core/per.rs", "per.rs"), ("model/data.rs", "data.rs")], jobs, lowerings=["L2"],
                 assumptions=[S1, S6, DEV, "L2 light error payloads"], stubs=[S1],
                 text="Bounded model checking of the real Message impls and PER primitives as encode/decode pairs over their full value domains: bytes written == length(), decode(encode(v)) == v, exact consumption, for every combinator at depth 1 and every PER primitive.",
@@ -438,7 +440,7 @@ def C18():
 
 PROPS = {"C01": C01, "C02": C02, "C04": C04, "C05": C05, "C06": C06, "C07": C07, "C08": C08, "C09": C09, "C12": C12, "C13": C13, "C14": C14, "C16": C16, "C17": C17, "C18": C18, "C19": C19}
 
-MIR_PROPS = ["C01", "C02", "C04", "C05", "C06", "C07", "C08", "C12", "C13", "C14", "C16", "C17"]
+MIR_PROPS = ["C01", "C02", "C04", "C05", "C06", "C07", "C08", "C12", "C13", "C14", "C16", "C17", "C18"]
 
 _TODO = "not claimed yet: machinery for this property is still being built (see DESIGN.md §4 for the plan)"
 NOT_APPLICABLE = {
